@@ -29,7 +29,7 @@ RULE = (
     "non-trivial = the all-on run has a non-zero scale-variation key and (for mu_F) the prediction is non-zero"
 )
 ASSUMPTIONS = [
-    "grid G6; Q2 in {4,30,1e5} (n_f = 4,5,6 in ZM-VFNS; fixed in FFNS); mu_F identities for PTO 1..2 only (the library has no O(a_s^3) factorisation kernels: keys (3,0,0,j>0) are not claimed), mu_R identities up to PTO 3",
+    "grid G6 (plus L7, G9, D5 for a sub-lattice); Q2 in {4,30,1e5} (n_f = 4,5,6 in ZM-VFNS; fixed in FFNS); mu_F identities for PTO 1..2 only (the library has no O(a_s^3) factorisation kernels: keys (3,0,0,j>0) are not claimed), mu_R identities up to PTO 3",
     "x-space DGLAP operators: reference convolution (ref_conv on ref_basis) of hand-written LO splitting functions and of the library's NLO / convolved splitting kernels "
     "(their distribution consistency is C03, the convolved labels are tied to their factors by Mellin moments in the 'moments' states, NLO moments are benchmarked against eko by the test-suite)",
     "flavour structure written out by hand (valence/sea decomposition); heavy-quark rows |pid|>n_f (intrinsic channel) must carry no factorisation logs",
@@ -61,6 +61,9 @@ def _states_base(tier, seed):
         st = {"t": "cell", "kind": k, "heavyness": h, "process": p, "scheme": sc, "pto": pto, "Q2": q2}
         if st not in out:
             out.append(st)
+    # other interpolation set-ups (linear grid, degree 3 and 5): the splitting operators are rebuilt by the reference on the same grid
+    for g, k, p in itertools.product(["L7", "G9", "D5"], ["F2", "FL", "F3"], ["NC", "CC"]):
+        out.append({"t": "cell", "kind": k, "heavyness": "total", "process": p, "scheme": "ZM-VFNS", "pto": 2, "Q2": 30.0, "grid": g})
     for nf in (3, 4, 5, 6):
         out.append({"t": "moments", "nf": nf})
     # several n_f regions inside ONE runner (the splitting-operator cache of the scale-variation manager is shared by all points and observables)
@@ -72,13 +75,13 @@ def _states_base(tier, seed):
     return out
 
 
-def _mats(nf):
-    """x-space matrices of all splitting labels on G6 for nf flavours (cached per worker)."""
-    if nf in _MATS:
-        return _MATS[nf]
+def _mats(nf, grid="G6"):
+    """x-space matrices of all splitting labels on the grid for nf flavours (cached per worker)."""
+    if (nf, grid) in _MATS:
+        return _MATS[(nf, grid)]
     from yadism.coefficient_functions import splitting_functions as split
 
-    basis = ref_basis.RefBasis(*cards.grid("G6"))
+    basis = ref_basis.RefBasis(*cards.grid(grid))
     M = {}
     for lab, tri in ref_rge.lo_kernels(nf).items():
         M[lab] = ref_rge.xmatrix(tri, basis)
@@ -93,7 +96,7 @@ def _mats(nf):
         "P1": ref_rge.FlavourOperator(nf, n, V=0.5 * (M["P_nsp_1"] + M["P_nsm_1"]), Vb=0.5 * (M["P_nsp_1"] - M["P_nsm_1"]), S=(M["P_qq_1"] - M["P_nsp_1"]) / (2.0 * nf), Sb=(M["P_qq_1"] - M["P_nsp_1"]) / (2.0 * nf), B=M["P_qg_1"]),
         "P0P0": ref_rge.FlavourOperator(nf, n, V=M["P_qq_0^2"], S=M["P_qg_0P_gq_0"] / (2.0 * nf), Sb=M["P_qg_0P_gq_0"] / (2.0 * nf), B=M["P_qq_0P_qg_0"] + M["P_qg_0P_gg_0"]),
     }
-    _MATS[nf] = ops
+    _MATS[(nf, grid)] = ops
     return ops
 
 
@@ -109,7 +112,7 @@ def _v(st, what, key, msg):
     return {"fp": fp, "fpkey": {"cls": what, "key": str(key), "kind": st.get("kind"), "process": st.get("process"), "scheme": st.get("scheme"), "heavyness": st.get("heavyness")}, "msg": msg}
 
 
-def _check_point(st, T, nf, x, desc):
+def _check_point(st, T, nf, x, desc, grid="G6"):
     """mu_R / mu_F identities for one kinematic point; T: key -> values tensor. Returns (viol, nontrivial, worstR, worstF) or None (non-finite)."""
     b0, b1 = ref_rge.beta0(nf), ref_rge.beta1(nf)
     viol = []
@@ -142,7 +145,7 @@ def _check_point(st, T, nf, x, desc):
             idx = np.unravel_index(np.argmax(d), d.shape)
             viol.append(_v(st, "muR-rge", key, f"{desc} x={x}: key {key} [pid {yrun.PIDS[idx[0]]}, j={idx[1]}] = {T[key][idx]:.10g}, mu_R RGE from lower keys gives {pred[idx]:.10g}"))
     # ---- oracle 1b: mu_F identities with reference DGLAP operators
-    ops = _mats(nf)
+    ops = _mats(nf, grid)
     c0 = ref_rge.strip_heavy(g((0, 0, 0, 0)), nf)
     c1 = ref_rge.strip_heavy(g((1, 0, 0, 0)), nf)
     fpreds = {(1, 0, 0, 1): ops["P0"].apply(c0)}
@@ -190,10 +193,12 @@ def execute(st):
     if st["t"] == "multi":
         return _multi(st)
     name = cards.obsname(st["kind"], st["heavyness"])
-    obs = {name: [cards.kin(x, st["Q2"]) for x in XS]}
+    xs_ = [x for x in XS if x >= cards.GRIDS[st.get("grid", "G6")][0][0] * 1.5] or [0.3, 0.8]
+    obs = {name: [cards.kin(x, st["Q2"]) for x in xs_]}
     runs = {}
     for ren, fact in ((True, True), (True, False), (False, True), (False, False)):
         c = {k: st[k] for k in ("process", "scheme", "pto")}
+        c["grid"] = st.get("grid", "G6")
         c["theory"] = {"RenScaleVar": ren, "FactScaleVar": fact}
         out, status = rel.try_run(c, obs)
         if status != "ok":
@@ -205,9 +210,9 @@ def execute(st):
     nontrivial = False
     worstR = worstF = 0.0
     desc = f"{name} {st['process']} {st['scheme']} pto={st['pto']} Q2={st['Q2']} (nf={nf})"
-    for i, x in enumerate(XS):
+    for i, x in enumerate(xs_):
         T = {k: v[0] for k, v in yrun.tensors(runs[(True, True)][name][i]).items()}
-        r = _check_point(st, T, nf, x, desc)
+        r = _check_point(st, T, nf, x, desc, st.get("grid", "G6"))
         if r is None:
             return {"violations": [], "nontrivial": False, "outcome": "excluded:nonfinite", "transitions": 4, "info": {"n_excluded_nonfinite": 1}}
         viol += r[0]
